@@ -1001,6 +1001,17 @@ def _last_mut(m, a, c):
     return some(MutRef(lambda: v.items[i], lambda x: v.items.__setitem__(i, x)))
 
 
+@reg("core::slice::<impl [T]>::windows", "std::slice::<impl [T]>::windows")
+def _slice_windows(m, a, c):
+    v = deref(a[0])
+    n = deref(a[1])
+    if is_sym(v) or is_sym(n) or not isinstance(v, PyVec):
+        raise Unsupported("windows over %r" % (v,))
+    if n == 0:
+        raise Panic("window size must be non-zero")
+    return PyIter([PyVec(v.items[i:i + n]) for i in range(0, len(v.items) - n + 1)])
+
+
 @reg("core::slice::<impl [T]>::iter", "core::slice::<impl [T]>::iter_mut")
 def _slice_iter(m, a, c):
     v = deref(a[0])
@@ -1442,6 +1453,9 @@ def _sort_key(v):
         return int(v)
     if isinstance(v, tuple):
         return tuple(_sort_key(x) for x in v)
+    if isinstance(v, PyVec):
+        # arrays / vectors order lexicographically (a proper prefix first), as Python tuples do
+        return tuple(_sort_key(deref(x)) for x in v.items)
     if isinstance(v, Adt) and v.path == OPTION:
         return (0,) if v.variant == "None" else (1, _sort_key(v.fields["0"]))
     if is_sym(v):
